@@ -294,7 +294,7 @@ def doc_match(exp, got):
 
 def main():
     run = Run("C01")
-    nprog = run.size(16000, 900000)
+    nprog = run.size(30000, 900000)
     size = 26 if run.tier == "quick" else 60
     per = 250
     tasks = []
